@@ -2030,7 +2030,7 @@ fn event_outlen_at(text: &[u8; 365], _content_pos: usize, m: usize) {
 }
 
 //@ harness: c03_event_outlen_o1_0
-//@ tier: seeded
+//@ tier: thorough
 //@ group: event_outlen
 //@ timeout: 1500
 //@ mem: 14
@@ -2047,7 +2047,7 @@ fn c03_event_outlen_o1_0() {
 }
 
 //@ harness: c03_event_outlen_o1_143
-//@ tier: seeded
+//@ tier: thorough
 //@ group: event_outlen
 //@ timeout: 1500
 //@ mem: 14
@@ -2080,7 +2080,7 @@ fn c03_event_outlen_o1_151() {
 }
 
 //@ harness: c03_event_outlen_o1_152
-//@ tier: seeded
+//@ tier: thorough
 //@ group: event_outlen
 //@ timeout: 1500
 //@ mem: 14
@@ -2097,7 +2097,7 @@ fn c03_event_outlen_o1_152() {
 }
 
 //@ harness: c03_event_outlen_o1_153
-//@ tier: seeded
+//@ tier: thorough
 //@ group: event_outlen
 //@ timeout: 1500
 //@ mem: 14
@@ -2114,7 +2114,7 @@ fn c03_event_outlen_o1_153() {
 }
 
 //@ harness: c03_event_outlen_o1_158
-//@ tier: seeded
+//@ tier: thorough
 //@ group: event_outlen
 //@ timeout: 1500
 //@ mem: 14
@@ -2131,7 +2131,7 @@ fn c03_event_outlen_o1_158() {
 }
 
 //@ harness: c03_event_outlen_o1_163
-//@ tier: seeded
+//@ tier: thorough
 //@ group: event_outlen
 //@ timeout: 1500
 //@ mem: 14
@@ -2148,7 +2148,7 @@ fn c03_event_outlen_o1_163() {
 }
 
 //@ harness: c03_event_outlen_o1_170
-//@ tier: seeded
+//@ tier: thorough
 //@ group: event_outlen
 //@ timeout: 1500
 //@ mem: 14
@@ -2165,7 +2165,7 @@ fn c03_event_outlen_o1_170() {
 }
 
 //@ harness: c03_event_outlen_o1_171
-//@ tier: seeded
+//@ tier: thorough
 //@ group: event_outlen
 //@ timeout: 1500
 //@ mem: 14
@@ -2182,7 +2182,7 @@ fn c03_event_outlen_o1_171() {
 }
 
 //@ harness: c03_event_outlen_o1_173
-//@ tier: seeded
+//@ tier: thorough
 //@ group: event_outlen
 //@ timeout: 1500
 //@ mem: 14
@@ -2199,7 +2199,7 @@ fn c03_event_outlen_o1_173() {
 }
 
 //@ harness: c03_event_outlen_o1_175
-//@ tier: seeded
+//@ tier: thorough
 //@ group: event_outlen
 //@ timeout: 1500
 //@ mem: 14
@@ -2216,7 +2216,7 @@ fn c03_event_outlen_o1_175() {
 }
 
 //@ harness: c03_event_outlen_o1_176
-//@ tier: seeded
+//@ tier: thorough
 //@ group: event_outlen
 //@ timeout: 1500
 //@ mem: 14
@@ -2233,7 +2233,7 @@ fn c03_event_outlen_o1_176() {
 }
 
 //@ harness: c03_event_outlen_o1_177
-//@ tier: seeded
+//@ tier: thorough
 //@ group: event_outlen
 //@ timeout: 1500
 //@ mem: 14
@@ -2250,7 +2250,7 @@ fn c03_event_outlen_o1_177() {
 }
 
 //@ harness: c03_event_outlen_o1_178
-//@ tier: seeded
+//@ tier: thorough
 //@ group: event_outlen
 //@ timeout: 1500
 //@ mem: 14
@@ -2267,7 +2267,7 @@ fn c03_event_outlen_o1_178() {
 }
 
 //@ harness: c03_event_outlen_o2_0
-//@ tier: seeded
+//@ tier: thorough
 //@ group: event_outlen
 //@ timeout: 1500
 //@ mem: 14
@@ -2284,7 +2284,7 @@ fn c03_event_outlen_o2_0() {
 }
 
 //@ harness: c03_event_outlen_o2_143
-//@ tier: seeded
+//@ tier: thorough
 //@ group: event_outlen
 //@ timeout: 1500
 //@ mem: 14
@@ -2301,7 +2301,7 @@ fn c03_event_outlen_o2_143() {
 }
 
 //@ harness: c03_event_outlen_o2_151
-//@ tier: seeded
+//@ tier: thorough
 //@ group: event_outlen
 //@ timeout: 1500
 //@ mem: 14
@@ -2334,7 +2334,7 @@ fn c03_event_outlen_o2_152() {
 }
 
 //@ harness: c03_event_outlen_o2_153
-//@ tier: seeded
+//@ tier: thorough
 //@ group: event_outlen
 //@ timeout: 1500
 //@ mem: 14
@@ -2351,7 +2351,7 @@ fn c03_event_outlen_o2_153() {
 }
 
 //@ harness: c03_event_outlen_o2_158
-//@ tier: seeded
+//@ tier: thorough
 //@ group: event_outlen
 //@ timeout: 1500
 //@ mem: 14
@@ -2368,7 +2368,7 @@ fn c03_event_outlen_o2_158() {
 }
 
 //@ harness: c03_event_outlen_o2_163
-//@ tier: seeded
+//@ tier: thorough
 //@ group: event_outlen
 //@ timeout: 1500
 //@ mem: 14
@@ -2385,7 +2385,7 @@ fn c03_event_outlen_o2_163() {
 }
 
 //@ harness: c03_event_outlen_o2_170
-//@ tier: seeded
+//@ tier: thorough
 //@ group: event_outlen
 //@ timeout: 1500
 //@ mem: 14
@@ -2402,7 +2402,7 @@ fn c03_event_outlen_o2_170() {
 }
 
 //@ harness: c03_event_outlen_o2_171
-//@ tier: seeded
+//@ tier: thorough
 //@ group: event_outlen
 //@ timeout: 1500
 //@ mem: 14
@@ -2419,7 +2419,7 @@ fn c03_event_outlen_o2_171() {
 }
 
 //@ harness: c03_event_outlen_o2_173
-//@ tier: seeded
+//@ tier: thorough
 //@ group: event_outlen
 //@ timeout: 1500
 //@ mem: 14
@@ -2436,7 +2436,7 @@ fn c03_event_outlen_o2_173() {
 }
 
 //@ harness: c03_event_outlen_o2_175
-//@ tier: seeded
+//@ tier: thorough
 //@ group: event_outlen
 //@ timeout: 1500
 //@ mem: 14
@@ -2453,7 +2453,7 @@ fn c03_event_outlen_o2_175() {
 }
 
 //@ harness: c03_event_outlen_o2_176
-//@ tier: seeded
+//@ tier: thorough
 //@ group: event_outlen
 //@ timeout: 1500
 //@ mem: 14
@@ -2470,7 +2470,7 @@ fn c03_event_outlen_o2_176() {
 }
 
 //@ harness: c03_event_outlen_o2_177
-//@ tier: seeded
+//@ tier: thorough
 //@ group: event_outlen
 //@ timeout: 1500
 //@ mem: 14
@@ -2487,7 +2487,7 @@ fn c03_event_outlen_o2_177() {
 }
 
 //@ harness: c03_event_outlen_o2_178
-//@ tier: seeded
+//@ tier: thorough
 //@ group: event_outlen
 //@ timeout: 1500
 //@ mem: 14
@@ -2550,7 +2550,7 @@ fn c03_event_prefix_o1_205() {
 }
 
 //@ harness: c03_event_prefix_o1_210
-//@ tier: seeded
+//@ tier: thorough
 //@ group: event_prefix
 //@ timeout: 1500
 //@ mem: 14
@@ -2567,7 +2567,7 @@ fn c03_event_prefix_o1_210() {
 }
 
 //@ harness: c03_event_prefix_o1_222
-//@ tier: seeded
+//@ tier: thorough
 //@ group: event_prefix
 //@ timeout: 1500
 //@ mem: 14
@@ -2584,7 +2584,7 @@ fn c03_event_prefix_o1_222() {
 }
 
 //@ harness: c03_event_prefix_o1_226
-//@ tier: seeded
+//@ tier: thorough
 //@ group: event_prefix
 //@ timeout: 1500
 //@ mem: 14
@@ -2601,7 +2601,7 @@ fn c03_event_prefix_o1_226() {
 }
 
 //@ harness: c03_event_prefix_o1_230
-//@ tier: seeded
+//@ tier: thorough
 //@ group: event_prefix
 //@ timeout: 1500
 //@ mem: 14
@@ -2618,7 +2618,7 @@ fn c03_event_prefix_o1_230() {
 }
 
 //@ harness: c03_event_prefix_o1_253
-//@ tier: seeded
+//@ tier: thorough
 //@ group: event_prefix
 //@ timeout: 1500
 //@ mem: 14
@@ -2635,7 +2635,7 @@ fn c03_event_prefix_o1_253() {
 }
 
 //@ harness: c03_event_prefix_o1_254
-//@ tier: seeded
+//@ tier: thorough
 //@ group: event_prefix
 //@ timeout: 1500
 //@ mem: 14
@@ -2652,7 +2652,7 @@ fn c03_event_prefix_o1_254() {
 }
 
 //@ harness: c03_event_prefix_o1_260
-//@ tier: seeded
+//@ tier: thorough
 //@ group: event_prefix
 //@ timeout: 1500
 //@ mem: 14
@@ -2669,7 +2669,7 @@ fn c03_event_prefix_o1_260() {
 }
 
 //@ harness: c03_event_prefix_o1_300
-//@ tier: seeded
+//@ tier: thorough
 //@ group: event_prefix
 //@ timeout: 1500
 //@ mem: 14
@@ -2686,7 +2686,7 @@ fn c03_event_prefix_o1_300() {
 }
 
 //@ harness: c03_event_prefix_o1_321
-//@ tier: seeded
+//@ tier: thorough
 //@ group: event_prefix
 //@ timeout: 1500
 //@ mem: 14
@@ -2703,7 +2703,7 @@ fn c03_event_prefix_o1_321() {
 }
 
 //@ harness: c03_event_prefix_o1_325
-//@ tier: seeded
+//@ tier: thorough
 //@ group: event_prefix
 //@ timeout: 1500
 //@ mem: 14
@@ -2720,7 +2720,7 @@ fn c03_event_prefix_o1_325() {
 }
 
 //@ harness: c03_event_prefix_o1_330
-//@ tier: seeded
+//@ tier: thorough
 //@ group: event_prefix
 //@ timeout: 1500
 //@ mem: 14
@@ -2737,7 +2737,7 @@ fn c03_event_prefix_o1_330() {
 }
 
 //@ harness: c03_event_prefix_o1_336
-//@ tier: seeded
+//@ tier: thorough
 //@ group: event_prefix
 //@ timeout: 1500
 //@ mem: 14
@@ -2754,7 +2754,7 @@ fn c03_event_prefix_o1_336() {
 }
 
 //@ harness: c03_event_prefix_o1_337
-//@ tier: seeded
+//@ tier: thorough
 //@ group: event_prefix
 //@ timeout: 1500
 //@ mem: 14
@@ -2771,7 +2771,7 @@ fn c03_event_prefix_o1_337() {
 }
 
 //@ harness: c03_event_prefix_o1_340
-//@ tier: seeded
+//@ tier: thorough
 //@ group: event_prefix
 //@ timeout: 1500
 //@ mem: 14
@@ -2788,7 +2788,7 @@ fn c03_event_prefix_o1_340() {
 }
 
 //@ harness: c03_event_prefix_o1_345
-//@ tier: seeded
+//@ tier: thorough
 //@ group: event_prefix
 //@ timeout: 1500
 //@ mem: 14
@@ -2805,7 +2805,7 @@ fn c03_event_prefix_o1_345() {
 }
 
 //@ harness: c03_event_prefix_o1_349
-//@ tier: seeded
+//@ tier: thorough
 //@ group: event_prefix
 //@ timeout: 1500
 //@ mem: 14
@@ -2822,7 +2822,7 @@ fn c03_event_prefix_o1_349() {
 }
 
 //@ harness: c03_event_prefix_o1_350
-//@ tier: seeded
+//@ tier: thorough
 //@ group: event_prefix
 //@ timeout: 1500
 //@ mem: 14
@@ -2839,7 +2839,7 @@ fn c03_event_prefix_o1_350() {
 }
 
 //@ harness: c03_event_prefix_o1_355
-//@ tier: seeded
+//@ tier: thorough
 //@ group: event_prefix
 //@ timeout: 1500
 //@ mem: 14
@@ -2856,7 +2856,7 @@ fn c03_event_prefix_o1_355() {
 }
 
 //@ harness: c03_event_prefix_o1_356
-//@ tier: seeded
+//@ tier: thorough
 //@ group: event_prefix
 //@ timeout: 1500
 //@ mem: 14
@@ -2873,7 +2873,7 @@ fn c03_event_prefix_o1_356() {
 }
 
 //@ harness: c03_event_prefix_o1_360
-//@ tier: seeded
+//@ tier: thorough
 //@ group: event_prefix
 //@ timeout: 1500
 //@ mem: 14
@@ -2890,7 +2890,7 @@ fn c03_event_prefix_o1_360() {
 }
 
 //@ harness: c03_event_prefix_o1_362
-//@ tier: seeded
+//@ tier: thorough
 //@ group: event_prefix
 //@ timeout: 1500
 //@ mem: 14
@@ -2907,7 +2907,7 @@ fn c03_event_prefix_o1_362() {
 }
 
 //@ harness: c03_event_prefix_o1_363
-//@ tier: seeded
+//@ tier: thorough
 //@ group: event_prefix
 //@ timeout: 1500
 //@ mem: 14
@@ -2924,7 +2924,7 @@ fn c03_event_prefix_o1_363() {
 }
 
 //@ harness: c03_event_prefix_o1_364
-//@ tier: seeded
+//@ tier: thorough
 //@ group: event_prefix
 //@ timeout: 1500
 //@ mem: 14
@@ -2941,7 +2941,7 @@ fn c03_event_prefix_o1_364() {
 }
 
 //@ harness: c03_event_prefix_o1_365
-//@ tier: seeded
+//@ tier: thorough
 //@ group: event_prefix
 //@ timeout: 1500
 //@ mem: 14
@@ -2958,7 +2958,7 @@ fn c03_event_prefix_o1_365() {
 }
 
 //@ harness: c03_event_prefix_o2_204
-//@ tier: seeded
+//@ tier: thorough
 //@ group: event_prefix
 //@ timeout: 1500
 //@ mem: 14
@@ -2975,7 +2975,7 @@ fn c03_event_prefix_o2_204() {
 }
 
 //@ harness: c03_event_prefix_o2_205
-//@ tier: seeded
+//@ tier: thorough
 //@ group: event_prefix
 //@ timeout: 1500
 //@ mem: 14
@@ -2992,7 +2992,7 @@ fn c03_event_prefix_o2_205() {
 }
 
 //@ harness: c03_event_prefix_o2_210
-//@ tier: seeded
+//@ tier: thorough
 //@ group: event_prefix
 //@ timeout: 1500
 //@ mem: 14
@@ -3009,7 +3009,7 @@ fn c03_event_prefix_o2_210() {
 }
 
 //@ harness: c03_event_prefix_o2_222
-//@ tier: seeded
+//@ tier: thorough
 //@ group: event_prefix
 //@ timeout: 1500
 //@ mem: 14
@@ -3026,7 +3026,7 @@ fn c03_event_prefix_o2_222() {
 }
 
 //@ harness: c03_event_prefix_o2_226
-//@ tier: seeded
+//@ tier: thorough
 //@ group: event_prefix
 //@ timeout: 1500
 //@ mem: 14
@@ -3059,7 +3059,7 @@ fn c03_event_prefix_o2_230() {
 }
 
 //@ harness: c03_event_prefix_o2_253
-//@ tier: seeded
+//@ tier: thorough
 //@ group: event_prefix
 //@ timeout: 1500
 //@ mem: 14
@@ -3076,7 +3076,7 @@ fn c03_event_prefix_o2_253() {
 }
 
 //@ harness: c03_event_prefix_o2_254
-//@ tier: seeded
+//@ tier: thorough
 //@ group: event_prefix
 //@ timeout: 1500
 //@ mem: 14
@@ -3093,7 +3093,7 @@ fn c03_event_prefix_o2_254() {
 }
 
 //@ harness: c03_event_prefix_o2_260
-//@ tier: seeded
+//@ tier: thorough
 //@ group: event_prefix
 //@ timeout: 1500
 //@ mem: 14
@@ -3110,7 +3110,7 @@ fn c03_event_prefix_o2_260() {
 }
 
 //@ harness: c03_event_prefix_o2_300
-//@ tier: seeded
+//@ tier: thorough
 //@ group: event_prefix
 //@ timeout: 1500
 //@ mem: 14
@@ -3127,7 +3127,7 @@ fn c03_event_prefix_o2_300() {
 }
 
 //@ harness: c03_event_prefix_o2_321
-//@ tier: seeded
+//@ tier: thorough
 //@ group: event_prefix
 //@ timeout: 1500
 //@ mem: 14
@@ -3144,7 +3144,7 @@ fn c03_event_prefix_o2_321() {
 }
 
 //@ harness: c03_event_prefix_o2_325
-//@ tier: seeded
+//@ tier: thorough
 //@ group: event_prefix
 //@ timeout: 1500
 //@ mem: 14
@@ -3161,7 +3161,7 @@ fn c03_event_prefix_o2_325() {
 }
 
 //@ harness: c03_event_prefix_o2_330
-//@ tier: seeded
+//@ tier: thorough
 //@ group: event_prefix
 //@ timeout: 1500
 //@ mem: 14
@@ -3178,7 +3178,7 @@ fn c03_event_prefix_o2_330() {
 }
 
 //@ harness: c03_event_prefix_o2_336
-//@ tier: seeded
+//@ tier: thorough
 //@ group: event_prefix
 //@ timeout: 1500
 //@ mem: 14
@@ -3195,7 +3195,7 @@ fn c03_event_prefix_o2_336() {
 }
 
 //@ harness: c03_event_prefix_o2_337
-//@ tier: seeded
+//@ tier: thorough
 //@ group: event_prefix
 //@ timeout: 1500
 //@ mem: 14
@@ -3212,7 +3212,7 @@ fn c03_event_prefix_o2_337() {
 }
 
 //@ harness: c03_event_prefix_o2_340
-//@ tier: seeded
+//@ tier: thorough
 //@ group: event_prefix
 //@ timeout: 1500
 //@ mem: 14
@@ -3229,7 +3229,7 @@ fn c03_event_prefix_o2_340() {
 }
 
 //@ harness: c03_event_prefix_o2_345
-//@ tier: seeded
+//@ tier: thorough
 //@ group: event_prefix
 //@ timeout: 1500
 //@ mem: 14
@@ -3246,7 +3246,7 @@ fn c03_event_prefix_o2_345() {
 }
 
 //@ harness: c03_event_prefix_o2_349
-//@ tier: seeded
+//@ tier: thorough
 //@ group: event_prefix
 //@ timeout: 1500
 //@ mem: 14
@@ -3263,7 +3263,7 @@ fn c03_event_prefix_o2_349() {
 }
 
 //@ harness: c03_event_prefix_o2_350
-//@ tier: seeded
+//@ tier: thorough
 //@ group: event_prefix
 //@ timeout: 1500
 //@ mem: 14
@@ -3280,7 +3280,7 @@ fn c03_event_prefix_o2_350() {
 }
 
 //@ harness: c03_event_prefix_o2_355
-//@ tier: seeded
+//@ tier: thorough
 //@ group: event_prefix
 //@ timeout: 1500
 //@ mem: 14
@@ -3297,7 +3297,7 @@ fn c03_event_prefix_o2_355() {
 }
 
 //@ harness: c03_event_prefix_o2_356
-//@ tier: seeded
+//@ tier: thorough
 //@ group: event_prefix
 //@ timeout: 1500
 //@ mem: 14
@@ -3314,7 +3314,7 @@ fn c03_event_prefix_o2_356() {
 }
 
 //@ harness: c03_event_prefix_o2_360
-//@ tier: seeded
+//@ tier: thorough
 //@ group: event_prefix
 //@ timeout: 1500
 //@ mem: 14
@@ -3331,7 +3331,7 @@ fn c03_event_prefix_o2_360() {
 }
 
 //@ harness: c03_event_prefix_o2_362
-//@ tier: seeded
+//@ tier: thorough
 //@ group: event_prefix
 //@ timeout: 1500
 //@ mem: 14
@@ -3348,7 +3348,7 @@ fn c03_event_prefix_o2_362() {
 }
 
 //@ harness: c03_event_prefix_o2_363
-//@ tier: seeded
+//@ tier: thorough
 //@ group: event_prefix
 //@ timeout: 1500
 //@ mem: 14
@@ -3365,7 +3365,7 @@ fn c03_event_prefix_o2_363() {
 }
 
 //@ harness: c03_event_prefix_o2_364
-//@ tier: seeded
+//@ tier: thorough
 //@ group: event_prefix
 //@ timeout: 1500
 //@ mem: 14
@@ -3382,7 +3382,7 @@ fn c03_event_prefix_o2_364() {
 }
 
 //@ harness: c03_event_prefix_o2_365
-//@ tier: seeded
+//@ tier: thorough
 //@ group: event_prefix
 //@ timeout: 1500
 //@ mem: 14
